@@ -256,7 +256,10 @@ def _check_and_process_init_state(
     if not isinstance(state, ChainState | dict):
         msg = "init_state should be a dictionary or ChainState."
         raise TypeError(msg)
-    return ChainState(**state) if isinstance(state, dict) else state
+    # Chain transitions update the state (and arrays held by it) in place therefore copy
+    # so that objects passed by the caller, which may be shared between the initial states
+    # of several chains, are left unchanged
+    return (ChainState(**state) if isinstance(state, dict) else state).copy()
 
 
 def _init_stats(
@@ -1252,6 +1255,8 @@ class HamiltonianMonteCarlo(MarkovChainMonteCarloMethod):
             msg = "init_state should be an array or `ChainState` with `mom` attribute."
             raise TypeError(msg)
         if init_state.mom is None:
+            # Copy rather than setting momentum of state object passed by caller
+            init_state = init_state.copy()
             init_state.mom = self.system.sample_momentum(init_state, self.rng)
         return init_state
 
